@@ -45,10 +45,10 @@ def key(ops):
 
 
 def cmap_of(op):
-    """Coefficient map of a library PauliTerm / PauliSum (reads _ops and coefficient only)."""
+    """Coefficient map of a library PauliTerm / PauliSum (reads the public `operations` and `coefficient` only)."""
     cm = {}
     for t in op.terms:
-        k = key(t._ops)
+        k = key(dict(t.operations))
         cm[k] = cm[k] + t.coefficient if k in cm else t.coefficient
     return cm
 
